@@ -126,5 +126,9 @@ def run(ctx):
 
 
 def replay(ctx, rep):
-    print("re-run the check with the same seed; case:", rep["case"])
+    c = rep["case"]
+    if "behaviour" in c:
+        c05._C06 = True
+        return c05.replay(ctx, rep)
+    print("re-run the check with the same seed; case:", c)
     return 0
